@@ -28,6 +28,17 @@ Deciding monitor M (boundary oracle on the public API, nothing else):
   difflib and from `diff -e`) through every source kind and every use: a no-op
   that never raises.
 
+* M.apply.alt - OTHER SPELLINGS of the same edits, as diff writers other than GNU diff emit them: a removal written
+  as a change with an EMPTY text block ('3,4c' + '.', '5c' + '.'), an append with an empty text block ('7a' + '.', a
+  no-op), a change of a range by the identical lines, one hunk written as two adjacent ones (remove + append at the
+  same place in either order, a removal or a change cut in two), every removal of a script written as c, addresses
+  with leading zeros ('03,04d', '00a'), N,N for a single line, and a script whose last line ('.' or a d command) has
+  no final newline.  Same observation, same verdict as M.apply / M.collect (str and bytes; list / iterator / file /
+  on-disk file; piped and collected); the target is what the reference interpreter makes of the script.
+* M.reject.zero - ZERO-VALUED BUT PRESENT address fields: 'N,0a' / 'N,00a' / '0,Na' and surplus or missing numbers
+  next to a zero must raise ValueError like any other range on an append; 'N,0c' / 'N,0d' must raise ValueError
+  wherever the SAME tree raises ValueError for the same command with a non-zero bad second address ('N,Kc', 0 < K < N).
+
 Every script is first run through the strict reference interpreter of
 vp.models.edscript (must reproduce `new` / must reject): if my own model
 disagrees with my own generator the case is dropped and the run is
@@ -84,7 +95,32 @@ RULE = ('Pairs (old, new) of 0..12 newline-terminated lines (thorough: occasiona
         'line, command look-alikes, embedded line-boundary characters) x list / iterator / in-memory file / on-disk '
         'file x the three uses x difflib / `diff -e`, plus random files of 0..12 lines (plain, hostile alphabet, '
         'line-boundary class), str and bytes: the script has no line at all; it must apply as a no-op (lines equal to '
-        'old afterwards) and never raise; such cases are trivial for distinct_nontrivial.')
+        'old afterwards) and never raise; such cases are trivial for distinct_nontrivial.  '
+        'OTHER SPELLINGS (alt:*, M.apply.alt; scripts from diff writers other than `diff -e`): the pair generator above '
+        '(15% line-boundary content), the script re-spelled hunk by hunk: a removal as "N[,M]c" + "." (change with an EMPTY '
+        'text block; with probability 1/4 EVERY removal of the script) or as d; a replacement as c, as removal + append at '
+        'the same place, or as append after the range + removal of the range; a hunk of >= 2 lines cut into two adjacent '
+        'hunks (removal|change above, removal|change below); in a run of kept lines a NO-OP append ("Na" + ".", strictly '
+        'inside the run, or at line 0 / after the last line when no hunk touches that end) or a change of 1..3 kept lines by '
+        'the IDENTICAL lines; addresses with 1..3 LEADING ZEROS ("03,04d", "00a", "007a"; none / half / all commands); '
+        '"N,N" for a single line; the LAST line of the script ("." or a d command) WITHOUT its newline (30%).  All pieces '
+        'act on non-overlapping slices in descending order.  Source kinds: list, TUPLE, iterator, in-memory file, on-disk '
+        'file; str and bytes; piped and one collected use per case.  Plus the COMPLETE matrix of single commands over files of 5, 1 '
+        'and 0 lines (a at every position with 0 / 1 / 2 text lines; d of every range; c of every range with no text / the '
+        'identical lines / 1 / 2 new lines) x every spelling of the command line (no, one or two leading zeros on either '
+        'address; N,N for one line) x with / without the final newline, and the two-command shapes (removal as d or c + '
+        'append at the same place, in both orders; a no-op append before / after a removal; a removal as two adjacent '
+        'ones).  The features are MEASURED on each script by walking it with the reference interpreter (alt:c-empty, '
+        'alt:a-empty, alt:c-identity, alt:same-place/*, alt:unmerged/*, alt:all-removals-as-c, alt:leading-zero[/a|c|d|00], '
+        'alt:N,N-range, alt:no-final-newline/dot|command); scripts from the older generators that show a feature (difflib '
+        'with replace split into d + a) are counted too.  '
+        'ZERO-VALUED ADDRESS FIELDS (zero:*, M.reject.zero): in a well-formed script one command gets an address field '
+        'that is present and zero: an append becomes "N,0a" / "N,00a" / "N,000a" / "0N,0a" (range-on-append/zero-second) or '
+        '"0,Na" / "00,Na" / "0,0a" (zero-first); any command becomes "N,0,0c" / "0,0,0d" / "N,N,0c" (three-numbers/zero) or '
+        '",0c" / "0,c" (missing-number/zero) - all malformed, ValueError demanded; a c / d command "N[,M]x" becomes "N,0x" / '
+        '"N,00x" / "N,000x" (zero-second) and is run next to its ANALOG "N,Kx" with a random 0 < K < N (when N >= 2) and '
+        'its single-address form "Nx".  Plus the complete matrix over a 6-line file: N,Za for N = 0..6 (with and without a '
+        'leading zero on N, alone and after a valid command), N,Zc / N,Zd with every K < N as the analog.')
 ASSUMPTIONS = ['vp.models.edscript (script deriver + strict reference interpreter) is right; every script is self-checked '
                'against the reference interpreter before use and `diff -e` (GNU diffutils) is a second script source',
                'domain: every line ends in exactly one newline and no content line is a lone "." (ed cannot carry either; '
@@ -128,7 +164,31 @@ ASSUMPTIONS = ['vp.models.edscript (script deriver + strict reference interprete
                'well-formed it must not raise.  Nothing is demanded about the type of an empty source beyond what the '
                'source kinds give (empty list, exhausted generator, StringIO("") / BytesIO(b""), empty file opened in '
                'text / binary mode); for the empty script the str and the bytes run differ only in the type of the old '
-               'lines and of the file object']
+               'lines and of the file object',
+               'other spellings: what a script MEANS is what ed does with it command by command (vp.models.edscript: '
+               'decimal addresses, so "03" is 3 and "00" is 0; "N,N" is the one line N; a c with no text removes its range; '
+               'an a with no text changes nothing; a text block ends at ".\\n" or at a "." that is the last item of the '
+               'stream); the target of such a script is the result of the reference interpreter, which for the random '
+               'scripts must also equal the `new` of the pair they were spelled from.  Only descending scripts are '
+               'generated (each command acts at or below the slice of the one before and never overlaps it - the pdiff '
+               'convention), so a tree that insisted on descending order would not be accused; two NON-EMPTY appends at the '
+               'same address are never generated, and a no-op append is only placed strictly inside a run of kept lines or '
+               'at a file end that no hunk touches',
+               'a last line without its newline ("." closing the last text block, or a final d command) is demanded only '
+               'because the unchanged tree accepts both (it lists "." next to ".\\n" as a terminator on purpose, and its '
+               'command pattern ends in "$"); through file sources such a script is the file that lacks its final newline.  '
+               'A text block cut anywhere else is still the truncation class (ValueError)',
+               'zero-valued address fields: a range on an append is malformed whatever its numbers are, so "N,0a", "N,00a" '
+               'and "0,Na" must raise ValueError exactly like "N,Ma" (absolute demand, M.reject).  "N,0c" / "N,0d" are '
+               'well-formed SYNTAX with a bad range (the reference interpreter parses them and refuses the range); bad '
+               'ranges stay outside the absolute oracle (see above), so the only demand is relative to the tree under test: '
+               'if it raises ValueError for "N,Kc" with a non-zero K < N it must raise ValueError for "N,0c" too '
+               '(malformed-command-accepted/zero-second-address).  The converse (zero refused, non-zero accepted) and any '
+               'other outcome are not accused: a tree may refuse address 0 on c / d on its own grounds.  Whether an '
+               'accepted "N,0c" was applied exactly like the single-address form "Nc" (the zero vanished) is recorded as '
+               'the counter zero:second-on-cd/applied-like-the-single-address-form for the reader of the evidence (0 on '
+               'the unchanged tree) and has no part in the verdict, because the statement gives such a script no target; '
+               '"0,0d" / "1,0c" have no non-zero analog and are only exercised']
 ANCHORS = ['debian.debian_support:patches_from_ed_script', 'debian.debian_support:patch_lines']
 MUST_REACH = list(ANCHORS)
 
@@ -141,6 +201,8 @@ MULTIBLOCK = {'quick': 1600, 'thorough': 50000}        # base scripts; each yiel
 BRK_DIFFE = {'quick': 600, 'thorough': 30000}
 EMPTY = {'quick': 4000, 'thorough': 120000}             # old == new (empty script), random files; + a complete matrix
 EMPTY_DIFFE = {'quick': 600, 'thorough': 16000}
+ALT_PAIRS = {'quick': 9000, 'thorough': 300000}        # (old, new) pairs whose script is written in OTHER SPELLINGS
+ZERO = {'quick': 2500, 'thorough': 80000}              # base scripts; each yields 2..4 zero-valued-address cases
 
 FLOORS = {
     'quick': {'nontrivial': 64000,
@@ -229,6 +291,8 @@ SRC = ('list', 'iter', 'file')
 USES = ('list', 'tuple', 'two-pass')
 SRC_BRK = ('list', 'iter', 'file', 'disk')
 SRC_BRK_W = ('list', 'iter', 'file') * 3 + ('disk',) * 2        # random choice: a real file costs ~10x a StringIO
+SRC_ALT = ('list', 'tuple', 'iter', 'file', 'disk')             # other-spellings class: the script may also sit in a tuple
+SRC_ALT_W = ('list', 'tuple', 'iter', 'file') * 3 + ('disk',) * 2
 # str.splitlines() boundaries other than LF (bytes.splitlines() only knows CR; VT and FF are the bytes a
 # "whitespace" / universal-newline shortcut would also touch)
 BREAKS = ['\r', '\x0b', '\x0c', '\x1c', '\x1d', '\x1e', '\x85', '\u2028', '\u2029']
@@ -468,6 +532,231 @@ def truncations(r, script, blocks, blk=None):
 
 
 # ---------------------------------------------------------------------------
+# OTHER SPELLINGS of the same edits (scripts from diff writers other than `diff -e`)
+
+def _pad(r, n, zeros):
+    s = '%d' % n
+    if zeros and r.random() < zeros:
+        s = '0' * r.choice([1, 1, 2, 3]) + s
+    return s
+
+
+def _cmd(r, letter, j1, j2, zeros=0.0, nn=0.0):
+    """Command line for the 0-based half-open slice [j1, j2) (an append goes after line j1)."""
+    if letter == 'a':
+        return _pad(r, j1, zeros) + 'a\n'
+    if j2 - j1 == 1 and r.random() >= nn:
+        return _pad(r, j1 + 1, zeros) + letter + '\n'
+    return '%s,%s%s\n' % (_pad(r, j1 + 1, zeros), _pad(r, j2, zeros), letter)
+
+
+def _assemble(r, pieces, zeros=0.0, nn=0.0, cut_newline=False):
+    script = []
+    for letter, j1, j2, text in pieces:
+        script.append(_cmd(r, letter, j1, j2, zeros, nn))
+        if letter != 'd':
+            script.extend(text)
+            script.append('.\n')
+    if script and cut_newline:
+        script[-1] = script[-1][:-1]              # '.' (or the last d command) at end of stream, no newline
+    return script
+
+
+def alt_script(r, old, new):
+    """An ed script for (old, new) in spellings GNU diff does not emit (see RULE, OTHER SPELLINGS).  Every piece acts
+    on a slice at or below the slice of the piece before it (non-overlapping, descending), so sequential ed semantics
+    and the pdiff convention agree on its meaning; the caller still has it vouched by the reference interpreter."""
+    blocks = [b['patch'] for b in edscript.make_ed_script_indexed(old, new)[1]]
+    allc = r.random() < 0.25                       # every removal written as c + empty text
+    zeros = r.choice([0.0, 0.0, 0.5, 1.0])
+    nn = r.choice([0.0, 0.0, 0.3, 1.0])            # N,N for a single line
+    p_noop = r.choice([0.0, 0.3, 0.6]) if blocks else 1.0
+    pieces = []
+
+    def removal(j1, j2):
+        pieces.append(('c' if allc or r.random() < 0.5 else 'd', j1, j2, []))
+
+    def region(e1, e2, has_upper, has_lower):
+        """Kept lines old[e1:e2]: a no-op append or a change by the identical lines."""
+        if r.random() >= p_noop:
+            return
+        if r.random() < 0.5:
+            cand = list(range(e1 + 1, e2))         # strictly inside, or at a file end no hunk touches
+            if not has_upper and (e2 > e1 or not has_lower):
+                cand.append(e2)
+            if not has_lower and (e2 > e1 or not has_upper) and e1 not in cand:
+                cand.append(e1)
+            if cand:
+                p = r.choice(cand)
+                pieces.append(('a', p, p, []))
+        elif e2 > e1:
+            p = r.randint(e1, e2 - 1)
+            q = min(e2, p + r.choice([1, 1, 2, 3]))
+            pieces.append(('c', p, q, list(old[p:q])))
+
+    def block(i1, i2, text):
+        if i2 == i1:
+            pieces.append(('a', i1, i1, text))
+            return
+        if i2 - i1 >= 2 and r.random() < 0.45:     # one hunk written as two adjacent ones
+            m = r.randint(i1 + 1, i2 - 1)
+            k = r.randint(0, len(text))
+            for (j1, j2, t) in ((m, i2, text[k:]), (i1, m, text[:k])):
+                if t:
+                    pieces.append(('c', j1, j2, t))
+                else:
+                    removal(j1, j2)
+            return
+        if not text:
+            removal(i1, i2)
+            return
+        k = r.random()
+        if k < 0.4:
+            pieces.append(('c', i1, i2, text))
+        elif k < 0.7:                              # remove, then append at the same place
+            removal(i1, i2)
+            pieces.append(('a', i1, i1, text))
+        else:                                      # append after the range, then remove the range
+            pieces.append(('a', i2, i2, text))
+            removal(i1, i2)
+
+    prev_lo, has_upper = len(old), False
+    for (i1, i2, text) in blocks:
+        region(i2, prev_lo, has_upper, True)
+        block(i1, i2, list(text))
+        prev_lo, has_upper = i1, True
+    region(0, prev_lo, has_upper, False)
+    script = _assemble(r, pieces, zeros, nn, r.random() < 0.3)
+    if script and not _alt_profile(old, edscript.parse_ed_script(script), script):
+        script = _assemble(r, pieces, 1.0, 1.0, r.random() < 0.5)       # it came out in `diff -e` shape: respell it
+    return script
+
+
+def enum_alt_scripts():
+    """Complete sub-space of single commands (and two commands at the same place) over files of 5, 1 and 0 lines, in every
+    spelling of the command line: -> (old, script).  The target is what the reference interpreter makes of it."""
+    pads = ('', '0', '00')
+
+    def lines_of(letter, addr, text, nl):
+        s = [addr + letter + '\n']
+        if letter != 'd':
+            s += list(text) + ['.\n']
+        if not nl:
+            s[-1] = s[-1][:-1]
+        return s
+
+    def addrs(letter, j1, j2):
+        if letter == 'a':
+            return ['%s%d' % (p, j1) for p in pads]
+        out = []
+        if j2 - j1 == 1:
+            out += ['%s%d' % (p, j1 + 1) for p in pads]
+        out += ['%s%d,%s%d' % (p, j1 + 1, q, j2) for p in pads for q in pads]
+        return out
+
+    for n in (5, 1, 0):
+        old = ['L%d\n' % i for i in range(1, n + 1)]
+        singles = [('a', p, p, t) for p in range(n + 1) for t in ([], ['x\n'], ['x\n', 'y\n'])]
+        ranges = [(j1, j2) for j1 in range(n) for j2 in range(j1 + 1, n + 1)]
+        for j1, j2 in ranges:
+            singles.append(('d', j1, j2, []))
+            for t in ([], old[j1:j2], ['x\n'], ['x\n', '1a\n']):
+                singles.append(('c', j1, j2, t))
+        for letter, j1, j2, text in singles:
+            for addr in addrs(letter, j1, j2):
+                for nl in (True, False):
+                    yield old, lines_of(letter, addr, text, nl)
+        for j1, j2 in ranges:
+            rng = '%d' % (j1 + 1) if j2 - j1 == 1 else '%d,%d' % (j1 + 1, j2)
+            for rem in 'dc':
+                for t in (['x\n'], ['x\n', 'y\n']):
+                    for nl in (True, False):
+                        # remove, then append at the same place / append after the range, then remove it
+                        yield old, lines_of(rem, rng, [], True) + lines_of('a', '%d' % j1, t, nl)
+                        yield old, lines_of('a', '%d' % j2, t, True) + lines_of(rem, rng, [], nl)
+                for noop in range(n + 1):          # a no-op append anywhere that keeps the script descending
+                    if noop >= j2:
+                        yield old, lines_of('a', '%d' % noop, [], True) + lines_of(rem, rng, [], True)
+                    if noop <= j1:
+                        yield old, lines_of(rem, rng, [], True) + lines_of('a', '%d' % noop, [], True)
+                for m in range(j1 + 1, j2):        # one removal written as two adjacent ones
+                    up = '%d' % (m + 1) if j2 - m == 1 else '%d,%d' % (m + 1, j2)
+                    lo = '%d' % (j1 + 1) if m - j1 == 1 else '%d,%d' % (j1 + 1, m)
+                    for rem2 in 'dc':
+                        yield old, lines_of(rem, up, [], True) + lines_of(rem2, lo, [], True)
+
+
+# zero-valued but present address fields (error clause)
+ZERO_APPEND_CLASSES = ('range-on-append/zero-second', 'range-on-append/zero-first', 'three-numbers/zero',
+                       'missing-number/zero')
+
+
+def zero_variants(r, script, blocks):
+    """From a well-formed script: cases whose ONE touched command carries a zero-valued address field that is present.
+    Appends ('N,0a', 'N,00a', '0,Na', ...) and surplus / missing numbers are malformed whatever the number says
+    (-> M.reject); 'N,0c' / 'N,0d' are well-formed syntax with a bad range and are judged against the same command with
+    a NON-ZERO bad second address (-> zero-second)."""
+    ab = [b for b in blocks if b['letter'] == 'a']
+    cb = [b for b in blocks if b['letter'] != 'a']
+    z = r.choice(['0', '0', '00', '000'])
+    if ab:
+        blk = r.choice(ab)
+        i = blk['cmd']
+        n = int(script[i][:-2])
+        for cls, bad in (('range-on-append/zero-second', r.choice(['%d,%sa\n' % (n, z), '0%d,%sa\n' % (n, z)])),
+                         ('range-on-append/zero-first', r.choice(['0,%da\n' % n, '00,%da\n' % max(n, 1), '0,%sa\n' % z]))):
+            s = list(script)
+            s[i] = bad
+            yield {'kind': 'malformed', 'script': s, 'class': cls, 'at': i}
+    blk = r.choice(blocks)
+    i = blk['cmd']
+    letter = blk['letter']
+    first = script[i][:-2].split(',')[0]
+    cls, bad = r.choice([('three-numbers/zero', '%s,%s,%s%s\n' % (first, z, z, letter)),
+                         ('three-numbers/zero', '%s,%s,%s%s\n' % (z, z, z, letter)),
+                         ('three-numbers/zero', '%s,%s,%s%s\n' % (first, first, z, letter)),
+                         ('missing-number/zero', ',%s%s\n' % (z, letter)),
+                         ('missing-number/zero', '%s,%s\n' % (z, letter))])
+    s = list(script)
+    s[i] = bad
+    yield {'kind': 'malformed', 'script': s, 'class': cls, 'at': i}
+    if cb:
+        far = [b for b in cb if b['patch'][0] >= 1]        # first address >= 2: a non-zero bad second address exists
+        blk = r.choice(far if far and r.random() < 0.8 else cb)
+        i = blk['cmd']
+        letter = blk['letter']
+        n = int(script[i][:-2].split(',')[0])
+        s, a, single = list(script), None, list(script)
+        s[i] = '%d,%s%s\n' % (n, z, letter)
+        single[i] = '%d%s\n' % (n, letter)
+        if n >= 2:
+            a = list(script)
+            a[i] = '%d,%d%s\n' % (n, r.randint(1, n - 1), letter)
+        yield {'kind': 'zero-second', 'script': s, 'analog': a, 'single': single, 'at': i}
+
+
+def enum_zero_cases():
+    """Complete: every 'N,Za' (N = 0..6, Z = 0 / 00 / 000, N with and without a leading zero) alone and after a valid
+    command; every 'N,Zc' / 'N,Zd' with every non-zero bad second address K < N as its analog; '0,0d', '1,0c' and the
+    like, which have no such analog, are only exercised."""
+    old = ['L%d\n' % i for i in range(1, 7)]
+    for n in range(0, 7):
+        for z in ('0', '00', '000'):
+            for first in ('%d' % n, '0%d' % n):
+                for head in ([], ['6d\n']):
+                    yield {'kind': 'malformed', 'old': old, 'script': head + ['%s,%sa\n' % (first, z), 'x\n', '.\n'],
+                           'class': 'range-on-append/zero-second', 'at': len(head)}
+    for n in range(0, 7):
+        for z in ('0', '00'):
+            for letter in 'cd':
+                tail = ['x\n', '.\n'] if letter == 'c' else []
+                for k in (list(range(1, n)) or [None]):
+                    yield {'kind': 'zero-second', 'old': old, 'script': ['%d,%s%s\n' % (n, z, letter)] + tail,
+                           'analog': None if k is None else ['%d,%d%s\n' % (n, k, letter)] + tail,
+                           'single': ['%d%s\n' % (n, letter)] + tail, 'at': 0}
+
+
+# ---------------------------------------------------------------------------
 # framework hooks
 
 def setup(ctx):
@@ -477,7 +766,16 @@ def setup(ctx):
                                          '9 non-LF line-boundary characters x %d templates x 19 placements of such a line '
                                          '(%d pairs), each through two source kinds, str and bytes, and every cut of '
                                          'every text block of their scripts'
-                                         % (len(BRK_TEMPLATES), sum(1 for _ in enum_brk_pairs()))]
+                                         % (len(BRK_TEMPLATES), sum(1 for _ in enum_brk_pairs())),
+                                         'OTHER SPELLINGS: every single a / c / d command over files of 5, 1 and 0 lines (text: '
+                                         'none, the identical lines, 1 or 2 new lines) x every spelling of its command line '
+                                         '(leading 0 / 00 on either address, N,N for one line, with / without the final newline); '
+                                         'remove + append at the same place in both orders, a no-op append before / after a '
+                                         'removal, one removal as two adjacent ones, removals as d or as c with no text (%d scripts)'
+                                         % sum(1 for _ in enum_alt_scripts()),
+                                         'ZERO-VALUED ADDRESS FIELDS: N,Za for N = 0..6, Z = 0 / 00 / 000; N,Zc and N,Zd with '
+                                         'every non-zero bad second address as the analog (%d cases)'
+                                         % sum(1 for _ in enum_zero_cases())]
     ctx.extra['self_check'] = {'reference_vouched': 0, 'reference_refused': 0, 'diffe_outside_subset': 0}
 
 
@@ -535,6 +833,10 @@ def cases(ctx):
     for case in brk_cases(ctx, thorough):
         yield case
     for case in empty_cases(ctx, thorough):
+        yield case
+    for case in alt_cases(ctx, thorough):
+        yield case
+    for case in zero_cases(ctx, thorough):
         yield case
 
 
@@ -653,6 +955,47 @@ def empty_cases(ctx, thorough):
                    'mode': 'both', 'enc': _enc(r, old), 'use': r.choice(USES), 'from': 'empty-random'}
 
 
+def alt_cases(ctx, thorough):
+    """OTHER SPELLINGS (see RULE): the complete single-command matrix, then random pairs."""
+    for i, (old, script) in enumerate(enum_alt_scripts()):
+        if not ctx.mine(i):
+            continue
+        try:
+            new = edscript.apply_ed_script(old, script)
+        except edscript.EdScriptError as e:            # my own enumeration is wrong: say so, accuse nobody
+            ctx.inconclusive.append('reference interpreter refuses an enumerated alt-spelling script %r: %s' % (script, e))
+            continue
+        yield {'kind': 'script', 'old': list(old), 'new': new, 'script': script, 'src': SRC_ALT[(i // 4) % 5],
+               'mode': 'both', 'use': USES[(i // 4) % 3], 'from': 'alt-enum', 'via': 'alt'}
+    r = ctx.rng('alt-pairs')
+    for i in range(ctx.size(ALT_PAIRS['quick'], ALT_PAIRS['thorough'])):
+        brk = r.random() < 0.15
+        old, new = gen_pair(r, thorough, brk=brk)
+        script = alt_script(r, old, new)
+        yield {'kind': 'script', 'old': old, 'new': new, 'script': script, 'src': r.choice(SRC_ALT_W), 'mode': 'both',
+               'enc': _enc(r, old, new), 'use': r.choice(USES), 'from': 'alt-random', 'via': 'alt'}
+
+
+def zero_cases(ctx, thorough):
+    """ZERO-VALUED ADDRESS FIELDS (see RULE): the complete small matrix, then variants of random scripts."""
+    for i, case in enumerate(enum_zero_cases()):
+        if ctx.mine(i):
+            case.update({'src': SRC[(i // 4) % 3], 'mode': 'both'})
+            yield case
+    r = ctx.rng('zero')
+    n = 0
+    want = ctx.size(ZERO['quick'], ZERO['thorough'])
+    while n < want:
+        old, new = gen_pair(r, thorough)
+        script, blocks = edscript.make_ed_script_indexed(old, new, split_replace=r.random() < 0.15)
+        if not blocks:
+            continue
+        n += 1
+        for case in zero_variants(r, script, blocks):
+            case.update({'old': old, 'src': r.choice(SRC), 'mode': 'both'})
+            yield case
+
+
 # ---------------------------------------------------------------------------
 # execution
 
@@ -681,6 +1024,8 @@ def _open_source(ctx, script, src, mode):
     """The script as the requested kind of source; never translates or re-splits anything (see ASSUMPTIONS)."""
     if src == 'iter':
         return (l for l in script)
+    if src == 'tuple':
+        return tuple(script)
     if src in ('file', 'disk'):
         if mode == 'bytes':
             nl, has_cr = None, False
@@ -775,6 +1120,64 @@ def _shape_counters(ctx, old, new, parsed):
         prev_first = first
 
 
+def _alt_profile(old, parsed, script):
+    """Spellings GNU diff does not emit, MEASURED on the script (never taken from the generator's label) by walking it
+    with the reference interpreter's parse: -> set of tags."""
+    tags = set()
+    lines = list(old)
+    k = 0
+    prev = None                                        # (letter, first, last, has_text) of the command before
+    removals_c = removals_d = 0
+    for letter, n1, n2, text in parsed:
+        raw = script[k]
+        k += 1 + (0 if letter == 'd' else len(text) + 1)
+        address = (raw[:-1] if raw.endswith('\n') else raw)[:-1]
+        for part in address.split(','):
+            if part != '%d' % int(part):
+                tags.add('leading-zero')
+                tags.add('leading-zero/%s' % letter)
+                if int(part) == 0:
+                    tags.add('leading-zero/00')
+        if n2 is not None and n2 == n1:
+            tags.add('N,N-range')
+        if letter == 'a':
+            first = last = n1
+        else:
+            first, last = n1 - 1, (n1 if n2 is None else n2)
+        if letter == 'a' and not text:
+            tags.add('a-empty')
+            tags.add('a-empty/%s' % ('@0' if n1 == 0 else ('@end' if n1 == len(lines) else '@mid')))
+        if letter == 'c' and not text:
+            tags.add('c-empty')
+            tags.add('c-empty/%s' % ('single' if last - first == 1 else 'range'))
+            if last == len(lines):
+                tags.add('c-empty/@last')
+            removals_c += 1
+        if letter == 'd':
+            removals_d += 1
+        if letter == 'c' and text and list(text) == lines[first:last]:
+            tags.add('c-identity')
+        if prev is not None:
+            pl, pf, plast, ptext = prev
+            removal = letter == 'd' or (letter == 'c' and not text)
+            premoval = pl == 'd' or (pl == 'c' and not ptext)
+            if premoval and letter == 'a' and text and first == pf:
+                tags.add('same-place/remove-then-append')
+            if pl == 'a' and ptext and removal and last == pf:
+                tags.add('same-place/append-then-remove')
+            if premoval and removal and last == pf:
+                tags.add('unmerged/removals')
+            if pl == 'c' and ptext and letter == 'c' and text and last == pf:
+                tags.add('unmerged/changes')
+        prev = (letter, first, last, bool(text))
+        lines[first:last] = list(text)
+    if removals_c and not removals_d:
+        tags.add('all-removals-as-c')
+    if script and not script[-1].endswith('\n'):
+        tags.add('no-final-newline/%s' % ('dot' if script[-1] == '.' else 'command'))
+    return tags
+
+
 def _name_mechanism(ctx, ds, script_t, mode, src, want_patches):
     """Boundary check already failed; compare parsed triples with the reference
     triples only to name WHICH conversion is off."""
@@ -849,6 +1252,15 @@ def check_apply(ctx, old, script, new, case, via):
         ctx.count('brk:apply/break-before-newline')
     if script and _brk_profile([l for l in old if l in new])[0]:
         ctx.count('brk:apply/old-line-kept')
+    alt = _alt_profile(old, parsed, script)             # spellings GNU diff does not emit
+    if alt:
+        ctx.count('alt:apply')
+        ctx.count('alt:src:%s' % src)
+        ctx.count('alt:via:%s' % via)
+        for tag in alt:
+            ctx.count('alt:%s' % tag)
+            if tag.startswith('no-final-newline/'):
+                ctx.count('alt:%s/src:%s' % (tag, src))
     empty = not script
     if empty:
         ctx.count('empty:apply')
@@ -879,6 +1291,10 @@ def check_apply(ctx, old, script, new, case, via):
         if empty:
             ctx.mon('M.apply.empty')
             ctx.count('empty:mode:%s' % mode)
+        if alt:
+            ctx.mon('M.apply.alt')
+            ctx.count('alt:mode:%s' % mode)
+            ctx.count('alt:collected', len(uses))
         ctx.count('mode:%s' % mode)
         source, eff = _source(ctx, s, src, mode)
         try:
@@ -1104,12 +1520,18 @@ def check_reject(ctx, case):
         elif done == 0 and case.get('nblocks', 0) >= 3:
             ctx.count('reject:trunc-multi:first')
     ctx.nontrivial(case={'old': old, 'script': script, 'class': cls})
+    zero = cls in ZERO_APPEND_CLASSES
+    if zero:
+        ctx.count('zero:malformed')
+        ctx.count('zero:malformed/src:%s' % src)
     for mode in _modes(case):
         o, s = _conv(old, mode, enc), _conv(script, mode, enc)
         small = dict(case)
         small['mode'] = mode
         small['enc'] = enc
         ctx.mon('M.reject')
+        if zero:
+            ctx.mon('M.reject.zero')
         if brk:
             ctx.mon('M.reject.brk')
         source = _source(ctx, s, src, mode)[0]
@@ -1130,6 +1552,84 @@ def check_reject(ctx, case):
         ctx.violation(key, '%s script %r (%s%s) was applied without error: %r -> %r'
                       % (mode, script, cls, (' at line %d' % case['at']) if 'at' in case else '',
                          _conv(old, mode, enc), o), small)
+
+
+def _outcome(ctx, ds, old_t, s, src, mode):
+    """('ValueError' | 'raised:<type>' | 'applied', resulting lines or None) of applying script s to a copy of old_t."""
+    o = list(old_t)
+    source = _source(ctx, s, src, mode)[0]
+    try:
+        ds.patch_lines(o, ds.patches_from_ed_script(source))
+    except ValueError:
+        return 'ValueError', None
+    except Exception as e:
+        return 'raised:%s' % type(e).__name__, None
+    finally:
+        _close(source)
+    return 'applied', o
+
+
+def check_zero_second(ctx, case):
+    """M.reject.zero on 'N,0c' / 'N,00d': a SECOND address that is zero is still a second address.  The command is
+    well-formed syntax with a bad range; the statement does not say what a bad range must do, so the demand is relative
+    to the tree itself: where the same command with a NON-ZERO bad second address ('N,Kc', 0 < K < N) raises
+    ValueError, the zero-valued one must raise ValueError too.  Nothing else is demanded (see ASSUMPTIONS)."""
+    from debian import debian_support as ds
+    old, script, analog, single = case['old'], case['script'], case.get('analog'), case.get('single')
+    src = case.get('src', 'list')
+    # self-check: the reference interpreter reads every variant as syntax it knows, and refuses the range of the zero
+    # form and of the analog (a zero second address is a second address)
+    try:
+        for sc in (script, analog, single):
+            if sc is not None:
+                edscript.parse_ed_script(sc)
+        ok = edscript.in_domain(old)
+    except edscript.EdScriptError:
+        ok = False
+    for sc in (script, analog):
+        if ok and sc is not None:
+            try:
+                edscript.apply_ed_script(old, sc)
+                ok = False
+            except edscript.EdScriptError:
+                pass
+    if not ok:
+        ctx.extra['self_check']['reference_refused'] += 1
+        ctx.inconclusive.append('zero-second case outside what the reference interpreter vouches for: %r / %r / %r'
+                                % (script, analog, single))
+        return
+    ctx.extra['self_check']['reference_vouched'] += 1
+    cmd = script[case.get('at', 0)]
+    letter = cmd.rstrip('\n')[-1]
+    ctx.count('zero:second-on-%s' % letter)
+    ctx.count('zero:second-on-cd')
+    ctx.count('zero:second-on-cd/src:%s' % src)
+    ctx.count('zero:second-on-cd/spelled:%s' % cmd[:-2].split(',')[1])
+    ctx.count('zero:second-on-cd/%s' % ('with-analog' if analog is not None else 'no-analog'))
+    ctx.nontrivial(case={'old': old, 'script': script, 'class': 'zero-second'})
+    for mode in _modes(case):
+        o = _conv(old, mode)
+        small = dict(case)
+        small['mode'] = mode
+        ctx.mon('M.reject.zero')
+        z = _outcome(ctx, ds, o, _conv(script, mode), src, mode)
+        ctx.count('zero:second-on-cd/zero-form:%s' % z[0])
+        a = None
+        if analog is not None:
+            a = _outcome(ctx, ds, o, _conv(analog, mode), src, mode)
+            ctx.count('zero:second-on-cd/analog:%s' % a[0])
+            if a[0] == 'ValueError' and z[0] != 'ValueError':
+                ctx.violation('malformed-command-accepted/zero-second-address',
+                              '%s: command %r (script %r on %r) gave %s although the same command with the non-zero bad '
+                              'second address (%r) raises ValueError: a second address of zero was not treated as present'
+                              % (mode, cmd, script, old, z[0] if z[1] is None else 'the result %r' % (z[1],),
+                                 analog[case.get('at', 0)]), small)
+                continue
+        if single is not None and z[0] == 'applied' and int(cmd.split(',')[0]) > 0:
+            # informational only (evidence, no verdict): did the zero vanish, i.e. was 'N,0c' applied as 'Nc'?
+            s1 = _outcome(ctx, ds, o, _conv(single, mode), src, mode)
+            if s1[0] == 'applied' and s1[1] == z[1] and (a is None or a[1] != z[1]):
+                ctx.count('zero:second-on-cd/applied-like-the-single-address-form')
 
 
 def _complete_text_blocks(script):
@@ -1169,7 +1669,7 @@ def run_case(ctx, case):
         check_apply(ctx, case['old'], script, case['new'], case,
                     'difflib-split' if case.get('split') else 'difflib')
     elif kind == 'script':
-        check_apply(ctx, case['old'], case['script'], case['new'], case, 'explicit')
+        check_apply(ctx, case['old'], case['script'], case['new'], case, case.get('via', 'explicit'))
     elif kind == 'diffe':
         script = run_diff_e(ctx, case['old'], case['new'])
         if script is None:
@@ -1178,6 +1678,8 @@ def run_case(ctx, case):
         check_apply(ctx, case['old'], script, case['new'], case, 'diffe')
     elif kind == 'malformed':
         check_reject(ctx, case)
+    elif kind == 'zero-second':
+        check_zero_second(ctx, case)
     else:
         raise ValueError('unknown case kind %r' % (kind,))
 
@@ -1190,7 +1692,11 @@ LEVEL_TEXT = ('Runtime monitoring: patch_lines(lines, patches_from_ed_script(S))
               'ValueError (incl. scripts with >= 3 text blocks cut in the first / a middle / the last block).  1e4 / 2.5e5 of '
               'the applied and 2e4 / 4.8e5 of the rejected scripts carry a non-LF line-boundary character (CR VT FF FS GS RS '
               'NEL LS PS) in the middle of a line.  Two complete sub-spaces are enumerated (old <= 4 lines x new <= 5 lines; '
-              '9 boundary characters x 14 templates x 19 placements).  Held-on-observed, not a proof.')
+              '9 boundary characters x 14 templates x 19 placements).  2.6e4 / 7e5 applications use scripts in spellings GNU '
+              'diff does not emit (removal as c with an empty text block, no-op append, change by the identical lines, '
+              'unmerged adjacent hunks, leading zeros, N,N, last line without newline; a complete single-command matrix), and '
+              '1.3e4 / 3.5e5 rejections concern address fields that are present and zero (N,0a absolutely; N,0c / N,0d '
+              'relative to N,Kc on the same tree).  Held-on-observed, not a proof.')
 LEVEL_NOTE = ('Trusted: CPython, difflib, vp.models.edscript (deriver + strict reference interpreter; every script is '
               'self-checked against it, and GNU diff -e is a second source). Lines end in exactly one "\\n" (everything before it '
               'is content, whatever str.splitlines would make of it) and are never a lone ".". File sources never translate '
@@ -1199,4 +1705,6 @@ LEVEL_NOTE = ('Trusted: CPython, difflib, vp.models.edscript (deriver + strict r
 TECHNIQUE = ('runtime monitoring: boundary oracle M on patch_lines(patches_from_ed_script(S)) - result must equal the target '
              'lines, element by element, for independently derived scripts (M.apply, str/bytes x list/iterator/file/on-disk '
              'file, incl. content with embedded non-LF line-boundary characters), and ValueError must be raised for scripts '
-             'with one corrupted command or an unterminated text block, single- and multi-block (M.reject)')
+             'with one corrupted command or an unterminated text block, single- and multi-block (M.reject); the same two '
+             'checks over scripts in spellings other than GNU diff\'s (M.apply.alt) and over address fields that are present '
+             'and zero (M.reject.zero)')
